@@ -891,6 +891,79 @@ func clientTwoLoopWorld(et bool) sched.Scenario {
 	return cw
 }
 
+// clientUDPEmptyWorld: the peer of a connected client UDP socket sends a zero-length datagram. The
+// default build serves such sockets through the stream path and takes the empty read for an end of
+// stream (the connection is closed); the poll_opt build delivers an empty OnTraffic and keeps it.
+// Either way: if the peer's datagram ends the connection, OnClose carries a non-nil error (C04:
+// peer-induced closes are not reported as local ones), and the lifecycle stays exact.
+func clientUDPEmptyWorld(et bool) sched.Scenario {
+	w := newWorld("client-udp-empty-datagram")
+	cw := &clientWorld{world: w}
+	w.onTraffic = func(w *world, ci *connInfo) Action {
+		b, _ := ci.c.Next(-1)
+		ci.consumed = append(ci.consumed, b...)
+		return None
+	}
+	closedByPeer := false
+	cw.body = func(cw *clientWorld) {
+		opts := []Option{WithLogger(nopLogger{}), WithNumEventLoop(1)}
+		if et {
+			opts = append(opts, WithEdgeTriggeredIO(true))
+		}
+		cli, err := NewClient(&mcHandler{w}, opts...)
+		if err != nil {
+			w.violate("client:new", "NewClient: %v", err)
+			return
+		}
+		if err := cli.Start(); err != nil {
+			w.violate("client:start", "Client.Start: %v", err)
+			return
+		}
+		port := 30000 + (os.Getpid()%5000)*2
+		pfd, _, err := mcsys.PUDPSocket(false, port)
+		if err != nil {
+			w.violate("client:harness", "udp socket: %v", err)
+			return
+		}
+		nc, err := net.DialUDP("udp4", nil, &net.UDPAddr{IP: net.IPv4(127, 0, 0, 1), Port: port})
+		if err != nil {
+			w.violate("client:harness", "dial: %v", err)
+			return
+		}
+		la := nc.LocalAddr().(*net.UDPAddr)
+		if _, err := cli.Enroll(nc); err != nil {
+			w.violate("client:enroll", "Client.Enroll(udp): %v", err)
+			return
+		}
+		sched.BlockUntil(func() bool { return len(w.conns) > 0 && w.conns[0].opens > 0 })
+		sched.WaitIdle()
+		_ = mcsys.PSendto(pfd, []byte{}, &unix.SockaddrInet4{Port: la.Port, Addr: [4]byte{127, 0, 0, 1}})
+		settle(nil)
+		sched.WaitIdle()
+		sched.WaitIdle()
+		closedByPeer = w.conns[0].closes > 0
+		w.runErr = cli.Stop()
+		_ = mcsys.PClose(pfd)
+	}
+	w.checks = append(w.checks, checkEnd, func(w *world, out *sched.Outcome) (string, string) {
+		if len(w.conns) != 1 {
+			return fmt.Sprintf("%d connections were opened", len(w.conns)), "client-udp:open"
+		}
+		ci := w.conns[0]
+		if ci.opens != 1 || ci.closes != 1 || len(ci.afterClose) > 0 {
+			return fmt.Sprintf("connected client UDP socket: OnOpen %d times, OnClose %d times, after close: %v", ci.opens, ci.closes, ci.afterClose), "client-udp:lifecycle"
+		}
+		if closedByPeer && ci.closeErr == nil {
+			return "the peer's zero-length datagram ended the connected client UDP socket and OnClose reported a nil error, as if the close had been requested locally", "client-udp:err-nil"
+		}
+		if m, s := fdCheck(w, out); m != "" {
+			return m, s
+		}
+		return "", ""
+	})
+	return cw
+}
+
 func TestMC_C06(t *testing.T) {
 	cfgs, byName := shutSchedConfigs()
 	runEngineCheck(t, "C06", cfgs, byName, fmt.Sprintf("%d shutdown scenarios (sources: Engine.Stop, package Stop, Shutdown action from OnOpen/OnTraffic/OnClose/OnTick/OnBoot, Client.Stop; situations: idle, being accepted, pending outbound, async request in flight, ticker, two listeners) x {LT,ET}, every schedule within the delay bound listed per scenario", len(cfgs)))
